@@ -455,6 +455,13 @@ func r165(c *Ctx) {
 					}
 					srcs = append(srcs, src{e, blk})
 				}
+			} else if ch, base := fieldPath(w.val); len(ch) == 1 && ch[0] == f && isPtrPhi(base) {
+				// the flag read through a pointer chosen earlier (`from := &defaultServiceOptions; if root != nil { from =
+				// &root.options }; ... from.TLSEnabled`): the same field of each struct the pointer may point to
+				phi := base.(*ssa.Phi)
+				for i, e := range phi.Edges {
+					srcs = append(srcs, src{&ssa.UnOp{Op: token.MUL, X: &ssa.FieldAddr{X: e, Field: fieldIndex(e.Type(), f)}}, phi.Block().Preds[i]})
+				}
 			} else {
 				srcs = []src{{w.val, w.instr.Block()}}
 			}
@@ -552,7 +559,7 @@ func r165(c *Ctx) {
 }
 
 func fieldIndex(t types.Type, f *types.Var) int {
-	st, _ := t.Underlying().(*types.Struct)
+	st := derefStruct(t)
 	if st == nil {
 		return 0
 	}
@@ -575,4 +582,13 @@ func (c *Ctx) redirectSite(rule string) (*ssa.Function, *ssa.Call) {
 	}
 	call, _ := cs[0].instr.(*ssa.Call)
 	return fn, call
+}
+
+func isPtrPhi(v ssa.Value) bool {
+	phi, ok := v.(*ssa.Phi)
+	if !ok {
+		return false
+	}
+	_, isPtr := phi.Type().Underlying().(*types.Pointer)
+	return isPtr
 }
